@@ -332,12 +332,17 @@ var mtTriggers = []string{"nothing", "txid", "pk1", "h160", "pk3", "pk2u", "data
 
 // MatchTxCase: tx with outputs Outs (indices into mtOuts), one input (Prev, Sig).
 type MatchTxCase struct {
-	Outs    []int  `json:"outs"`
-	Prev    int    `json:"prev"`
-	Sig     int    `json:"sig"`
-	Trigger int    `json:"trigger"`
-	Flags   uint8  `json:"flags"`
-	Tweak   uint32 `json:"tweak"`
+	Outs    []int `json:"outs"`
+	Prev    int   `json:"prev"`
+	Sig     int   `json:"sig"`
+	Trigger int   `json:"trigger"`
+	// Trigger2: a second item put into the filter (index into mtTriggers, 0 =
+	// nothing): the transaction then matches through more than one of BIP37's
+	// tests, and every one of them has to run (the outpoint insertion of the
+	// output test must not be skipped because the txid test already matched)
+	Trigger2 int    `json:"trigger2,omitempty"`
+	Flags    uint8  `json:"flags"`
+	Tweak    uint32 `json:"tweak"`
 }
 
 func mtTx(c *MatchTxCase) *wire.MsgTx {
@@ -350,46 +355,51 @@ func mtTx(c *MatchTxCase) *wire.MsgTx {
 }
 
 func runMatchTx(c *MatchTxCase) (fs []finding) {
-	id := fmt.Sprintf("outs=%v prev=%d sig=%d trigger=%s flags=%d tweak=%#x", c.Outs, c.Prev, c.Sig, mtTriggers[c.Trigger], c.Flags, c.Tweak)
+	id := fmt.Sprintf("outs=%v prev=%d sig=%d trigger=%s+%s flags=%d tweak=%#x", c.Outs, c.Prev, c.Sig, mtTriggers[c.Trigger], mtTriggers[c.Trigger2], c.Flags, c.Tweak)
 	fail := func(class, format string, a ...interface{}) {
 		fs = append(fs, finding{class, fmt.Sprintf(format, a...) + " [" + id + "]"})
 	}
 	tx := mtTx(c)
 	txid := lab.TxID(tx)
-	var item []byte
-	switch mtTriggers[c.Trigger] {
-	case "txid":
-		item = txid[:]
-	case "pk1":
-		item = pk1
-	case "h160":
-		item = h160
-	case "pk3":
-		item = pk3
-	case "pk2u":
-		item = pk2u
-	case "data":
-		item = dat
-	case "sig":
-		item = sig
-	case "big":
-		item = big
-	case "prevout0":
-		item = refbloom.OutPointBytes(mtPrevs[c.Prev].Hash, mtPrevs[c.Prev].Index)
-	case "prevout-other-index":
-		item = refbloom.OutPointBytes(mtPrevs[c.Prev].Hash, mtPrevs[c.Prev].Index+1)
-	case "unrelated":
-		item = []byte("unrelated item")
+	itemOf := func(trigger int) []byte {
+		switch mtTriggers[trigger] {
+		case "txid":
+			return txid[:]
+		case "pk1":
+			return pk1
+		case "h160":
+			return h160
+		case "pk3":
+			return pk3
+		case "pk2u":
+			return pk2u
+		case "data":
+			return dat
+		case "sig":
+			return sig
+		case "big":
+			return big
+		case "prevout0":
+			return refbloom.OutPointBytes(mtPrevs[c.Prev].Hash, mtPrevs[c.Prev].Index)
+		case "prevout-other-index":
+			return refbloom.OutPointBytes(mtPrevs[c.Prev].Hash, mtPrevs[c.Prev].Index+1)
+		case "unrelated":
+			return []byte("unrelated item")
+		}
+		return nil
 	}
+	item, item2 := itemOf(c.Trigger), itemOf(c.Trigger2)
 	f := bloom.NewFilter(10, c.Tweak, 0.000001, wire.BloomUpdateType(c.Flags))
 	m := f.MsgFilterLoad()
 	if len(m.Filter) == 0 {
 		return []finding{{"harness/matchtx-empty-filter", "unexpected empty filter"}}
 	}
 	ref := &refbloom.Filter{Data: make([]byte, len(m.Filter)), NHash: m.HashFuncs, Tweak: m.Tweak, Flags: byte(m.Flags)}
-	if item != nil {
-		f.Add(item)
-		ref.Insert(item)
+	for _, it := range [][]byte{item, item2} {
+		if it != nil {
+			f.Add(it)
+			ref.Insert(it)
+		}
 	}
 	utx := btcutil.NewTx(tx)
 	if *utx.Hash() != chainhash.Hash(txid) {
@@ -449,9 +459,14 @@ func checkMatchTx(r *ev.Run, bounds map[string]interface{}) {
 		for p := range mtPrevs {
 			for s := range mtSigs {
 				for t := range mtTriggers {
-					for _, fl := range bloomFlags {
-						for _, tw := range tweaks {
-							cases = append(cases, &Case{Kind: "matchtx", MatchTx: &MatchTxCase{Outs: o, Prev: p, Sig: s, Trigger: t, Flags: uint8(fl), Tweak: tw}})
+					for _, t2 := range []int{0, 1, 9} { // nothing, txid, prevout0
+						if t2 != 0 && t2 == t {
+							continue
+						}
+						for _, fl := range bloomFlags {
+							for _, tw := range tweaks {
+								cases = append(cases, &Case{Kind: "matchtx", MatchTx: &MatchTxCase{Outs: o, Prev: p, Sig: s, Trigger: t, Trigger2: t2, Flags: uint8(fl), Tweak: tw}})
+							}
 						}
 					}
 				}
@@ -465,7 +480,7 @@ func checkMatchTx(r *ev.Run, bounds map[string]interface{}) {
 		r.Trace(1)
 		c := cases[i].MatchTx
 		if c.Trigger != 0 {
-			r.Nontrivial(fmt.Sprintf("mt|%v|%d|%d|%d|%d|%d", c.Outs, c.Prev, c.Sig, c.Trigger, c.Flags, c.Tweak))
+			r.Nontrivial(fmt.Sprintf("mt|%v|%d|%d|%d|%d|%d|%d", c.Outs, c.Prev, c.Sig, c.Trigger, c.Trigger2, c.Flags, c.Tweak))
 		}
 		col.add(int64(i), cases[i], fs)
 	})
